@@ -41,6 +41,8 @@ func (t *Transpiler) transpileUnaryExpr(ue *parser.UnaryExpr) (influxql.Node, er
 				if ue.Op == parser.ADD {
 					return node, nil
 				}
+				// the negation drops the metric name (`-topk(1, m)` kept __name__)
+				t.dropMetric = true
 				field, idx := getSelectFieldIdx(statement)
 				statement.Fields[idx] = &influxql.Field{
 					Expr: &influxql.BinaryExpr{
